@@ -88,7 +88,8 @@ class _FakeMetrics:
 def _gate(cin):
     em = _st["em"]
     m = em.HourlyModel(settings=em.HourlyNonSolarSettings(seed=1))
-    val = lambda k, thr: {"none": None, "below": thr * 0.5, "equal": thr, "above": thr * 1.5}[k]
+    lo, hi = sorted([m.settings.cvrmse_threshold, m.settings.pnrmse_threshold])
+    val = lambda k, own: {"none": None, "low": lo * 0.5, "mid": (lo + hi) / 2.0, "high": hi * 1.5, "eqown": own}[k]
     m.baseline_metrics = _FakeMetrics(val(cin["cv"], m.settings.cvrmse_threshold), val(cin["pn"], m.settings.pnrmse_threshold))
     return {"res": "ok", "poor": not bool(m._model_fit_is_acceptable())}
 
